@@ -7,12 +7,12 @@ import (
 	"context"
 	"errors"
 
-	aws1 "github.com/aws/aws-sdk-go/aws"
-	"github.com/aws/aws-sdk-go/aws/awserr"
-	ddb1 "github.com/aws/aws-sdk-go/service/dynamodb"
 	aws2 "github.com/aws/aws-sdk-go-v2/aws"
 	ddb2 "github.com/aws/aws-sdk-go-v2/service/dynamodb"
 	types2 "github.com/aws/aws-sdk-go-v2/service/dynamodb/types"
+	aws1 "github.com/aws/aws-sdk-go/aws"
+	"github.com/aws/aws-sdk-go/aws/awserr"
+	ddb1 "github.com/aws/aws-sdk-go/service/dynamodb"
 	"github.com/aws/smithy-go"
 	v1 "github.com/truora/minidyn/aws-v1/client"
 	v2 "github.com/truora/minidyn/aws-v2/client"
